@@ -7,11 +7,16 @@ REPLICA = Comp('replica', n_quick=224, n_thorough=6000, oracle=service.service_o
 RORACE = Comp('rorace', n_quick=48, n_thorough=1500, oracle=rorace.rorace_oracle, nontrivial=rorace.rorace_nontrivial, stats=rorace.rorace_stats,
               differential=False, chunk_min=3, timeout=900, shrink=False)
 
+from oracledefs import repl as _repl
+REPL_RO = Comp('repl', n_quick=9, n_thorough=96, oracle=_repl.repl_ro_oracle, nontrivial=_repl.repl_ro_nontrivial, stats=_repl.repl_stats,
+               differential=False, chunk_min=10 ** 6, timeout=1500, shrink=False)
+
 reg(Prop('C16', 'Kevo.Props.C16',
          facts=['facts:api.iface.methods', 'facts:api.facade.*', 'facts:api.rpc.*', 'facts:api.svc.*'],
-         components=[REPLICA, RORACE],
+         components=[REPLICA, RORACE, REPL_RO],
          fact_tags=['api'],
-         rule='component replica (executor = component service, generator weighted to read-only engines): the REAL KevoServiceServer '
+         rule='component repl (end-to-end scenarios, first 9 classes incl. stopwrite): a client write sent to a real replica\'s engine is refused while replication runs and after Manager.Stop (the node stays a replica). '
+              'component replica (executor = component service, generator weighted to read-only engines): the REAL KevoServiceServer '
               'behind an in-process gRPC server (bufconn, generated client stubs) on engine A, the same requests translated to '
               'embedded calls on a twin engine B, and the model (Kevo.Model.Service with the regenerated API table). Programs: '
               'populate, SetReadOnly(true) (or opened read-only), then every client mutator of the table — rpc Put/Delete/BatchWrite/'
